@@ -288,7 +288,7 @@ MODEL_CFGS = {
     "C03": ["reuse"], "C04": [], "C10": [], "C12": ["timers"],
     "C01": ["reuse", "edge"], "C02": ["edge", "post"], "C05": ["timers"], "C06": ["reuse", "post"],
     "C07": ["edge", "timers"], "C08": ["reuse", "idle"], "C09": ["post"], "C13": ["idle"],
-    "C14": ["life"], "C15": ["faults", "life"], "C16": ["edge", "reuse"],
+    "C14": ["life", "synth"], "C15": ["faults", "life"], "C16": ["edge", "reuse"],
 }
 
 
